@@ -11,7 +11,7 @@ LEVEL = {
  'C03': ('E2', 'mutex over the fiber contract kernel: all interleavings of 2-3 fibers'),
  'C04': ('E2', 'join / detach (quick) and tryjoin, join-with-NULL-result, two concurrent actors (thorough, stretch) against the real fiber.c completion path over the fiber contract kernel: all interleavings of the stated actors; the VM liveness ghost decides reclaimed-once / never touched afterwards'),
  'C05': ('E2', 'real fiber_cond.c and the real unlock-and-wait path over the fiber contract kernel, with fiber_mutex replaced by its C03 contract: all interleavings of 1-2 waiters with a signaller (signal / broadcast, mutex held or released)'),
- 'C06': ('E2', 'semaphore over the fiber contract kernel'),
+ 'C06': ('E1', 'rely/guarantee step over the semaphore counter: every operation of fiber_semaphore.c from an arbitrary counter value with arbitrary interference before each atomic step (covers histories of any length for the counter protocol); the mpmc wait queue underneath (C13) is assumed, not proved - a partial claim, see DESIGN.md section 5'),
  'C07': ('E1+E2', 'inductive step over the 64-bit lock word for every operation from an arbitrary invariant-satisfying state with arbitrary interference (covers histories of any length for the word protocol) + small concurrent scenario'),
  'C08': ('E1', 'every shim of fiber_io.c and the fd half of fiber_event_native.c symbolically executed for arbitrary descriptors, flags and environment answers (ghost non-blocking kernel), bounded EAGAIN rounds'),
  'C09': ('E1+E2', 'sleep arithmetic for all 2^64 argument combinations and timer phases, sleeper tree for arbitrary keys, wake-once step; wake race as concurrent scenario'),
@@ -29,7 +29,6 @@ LEVEL = {
 }
 NOT_APPLICABLE = {
  'C13': 'bounded symbolic checking could not reach a verdict: the real mpmc_fifo push/pop over the real hazard-pointer code (two hazard publications with fences, validation re-reads, retire list, scan reachable from hazard_pointer_free) exceeds what CBMC\'s partial-order encoding digests even at 1 pusher x 2 / 2 poppers (no verdict in 30 min); the harness e2/harness/mpmc.c is kept but not claimed (DESIGN.md section 5)',
- 'C06': 'the semaphore blocks on the mpmc_fifo + hazard-pointer wait queue (same code as C13): no verdict within 30 min at 1 waiter + 1 poster; harness e2/harness/sem.c and props/C06.py are kept as stretch jobs but the property is not claimed (DESIGN.md section 5)',
 }
 checks, na = [], []
 for p in props:
@@ -60,7 +59,7 @@ m = {
            'baseline_off_cmd': 'cd /repo && cmake -G Ninja -B _build >/dev/null && (cmake --build _build -- -k 0 >/dev/null; ctest --test-dir _build -j8 --timeout 900)',
            'source_commits': [], 'add_only': True},
  'engines': [
-  {'name': 'E1 cbmc-src', 'path': 'e1/', 'serves_properties': ['C07', 'C08', 'C09', 'C14', 'C18', 'C19'], 'kind_free_text': 'CBMC on the real .c files with contract stubs for the environment'},
+  {'name': 'E1 cbmc-src', 'path': 'e1/', 'serves_properties': ['C05', 'C06', 'C07', 'C08', 'C09', 'C11', 'C14', 'C18', 'C19'], 'kind_free_text': 'CBMC on the real .c files with contract stubs for the environment'},
   {'name': 'E2 fvm', 'path': 'e2/', 'serves_properties': ['C01', 'C02', 'C03', 'C04', 'C05', 'C06', 'C07', 'C09', 'C10', 'C11', 'C12', 'C13', 'C14', 'C15', 'C16', 'C17', 'C18', 'C20'], 'kind_free_text': 'clang -O1 IR of the real units -> ir2cell -> C over integer cell memory -> CBMC threads (--mm sc / tso)'},
   {'name': 'E3 x86sym', 'path': 'e3/', 'serves_properties': ['C19'], 'kind_free_text': 'z3 symbolic interpreter for the inline assembly of fiber_context_swap extracted from the IR'},
  ],
